@@ -241,7 +241,10 @@ fn seed_value<const B: usize, const L: usize>(rng: &mut XorShift) -> Uint<B, L> 
     if B == 0 {
         return Uint::ZERO;
     }
-    Uint::from_limbs(limbs)
+    let mut u = Uint::<B, L>::ZERO;
+    // SAFETY: the top limb was masked above (no constructor under test on the harness's own path).
+    unsafe { u.as_limbs_mut().copy_from_slice(&limbs) };
+    u
 }
 
 /// Immediates: a wider choice than the specification's own `Imms` (the trace specification accepts any immediate).
@@ -267,5 +270,11 @@ fn j_to_uint_lossy<const B: usize, const L: usize>(v: &Value) -> Uint<B, L> {
     for (i, l) in limbs.iter().take(L).enumerate() {
         arr[i] = *l;
     }
-    Uint::from_limbs_slice(&arr)
+    let mut u = Uint::<B, L>::ZERO;
+    if L > 0 && B % 64 != 0 {
+        arr[L - 1] &= (1u64 << (B % 64)) - 1;
+    }
+    // SAFETY: masked above.
+    unsafe { u.as_limbs_mut().copy_from_slice(&arr) };
+    u
 }
